@@ -50,11 +50,20 @@ Sub(S) == [S EXCEPT !.ev = <<>>]                              \* a nested sequen
 Back(S, sub) == [sub EXCEPT !.ev = S.ev]                      \* ... and the enclosing one continues
 Out(S, v) == [S |-> S, v |-> v]
 Out3(S, v, t) == [S |-> S, v |-> v, t |-> t]
-Fresh(S) == [S EXCEPT !.ev = <<>>, !.n = 0, !.b = <<>>, !.cl = {}]       \* a function body is evaluated on its own
+Fresh(S) == [S EXCEPT !.ev = <<>>, !.n = 0, !.b = <<>>, !.cl = {}, !.pr = <<>>]       \* a function body is evaluated on its own
 
 (* late: ids of calls whose identifier callee is read after the arguments (named deviation D23) *)
 (* cl: temporaries that hold a chain written in parentheses, (a?.b): complete, a guard on them continues nothing *)
-InitState(inj, hooks, late) == [n |-> 0, ev |-> <<>>, b |-> <<>>, cl |-> {}, inj |-> inj, hooks |-> hooks, late |-> late]
+RECURSIVE PathStr(_)
+PathStr(m) == IF m.t = "Identifier" THEN m.v ELSE PathStr(m.c[1]) \o "." \o m.c[2].v
+
+(* pr: how often each static path X.y.z was read (a bag). Reads along static paths are not events -- the  *)
+(* property lets X.prototype.m be read before or after a this-argument -- but none may be added or lost. *)
+InitState(inj, hooks, late) == [n |-> 0, ev |-> <<>>, b |-> <<>>, cl |-> {}, pr |-> <<>>, inj |-> inj, hooks |-> hooks, late |-> late]
+ReadPath(S, p) == [S EXCEPT !.pr = IF p \in DOMAIN @ THEN [@ EXCEPT ![p] = @ + 1] ELSE (p :> 1) @@ @]
+(* reading o.x.y reads o.x on the way *)
+RECURSIVE ReadPathAll(_, _)
+ReadPathAll(S, m) == IF m.t # "MemberExpression" THEN S ELSE ReadPath(ReadPathAll(S, m.c[1]), PathStr(m))
 
 (* values whose computation has no effect at all: literals and operations on them *)
 IsPure(v) == v.k \in {"lit", "litop"}
@@ -62,8 +71,7 @@ IsPure(v) == v.k \in {"lit", "litop"}
 IsInj(n, S) == n.t = "Identifier" /\ n.v \in S.inj
 EnvOf(S) == [inj |-> S.inj, b |-> <<>>]
 
-RECURSIVE PathStr(_)
-PathStr(m) == IF m.t = "Identifier" THEN m.v ELSE PathStr(m.c[1]) \o "." \o m.c[2].v
+
 RECURSIVE PathRoot(_)
 PathRoot(m) == IF m.t = "MemberExpression" THEN PathRoot(m.c[1]) ELSE m
 IsStaticMember(m, S) == IsStaticPathS(m) /\ PathRoot(m).v \notin S.inj
@@ -191,7 +199,7 @@ EFn(n, S) ==
                 /\ stmts[1].t = "ReturnStatement" /\ stmts[1].c[1].t # "Null"
       kids == IF asExpr THEN SubSeq(n.c, 1, Len(n.c) - 1) \o <<stmts[1].c[1]>> ELSE n.c
       r == EKids(kids, 1, Fresh(S), <<>>)
-  IN [k |-> "fn", t |-> n.t, a |-> n.a, v |-> n.v, ev |-> r.S.ev, vs |-> r.vs]
+  IN [k |-> "fn", t |-> n.t, a |-> n.a, v |-> n.v, ev |-> r.S.ev, vs |-> r.vs, pr |-> r.S.pr]
 
 ECall(n, S) ==
   LET c0 == StripParen(n.c[1])
@@ -251,13 +259,13 @@ EAssign(n, S) ==
             IN Out(Emit(S1, Event("assign", lhs.v, ResV(r.S.n), NoV, <<>>, <<>>, <<>>)), ResV(r.S.n))
   ELSE IF lhs.t = "MemberExpression" THEN
        LET static == IsStaticMember(lhs, S)
-           o == IF static THEN Out(S, IF lhs.c[1].t = "Identifier" THEN VarV(lhs.c[1].v, S.n) ELSE PathV(PathStr(lhs.c[1]), S.n))
+           o == IF static THEN Out(ReadPathAll(S, lhs.c[1]), IF lhs.c[1].t = "Identifier" THEN VarV(lhs.c[1].v, S.n) ELSE PathV(PathStr(lhs.c[1]), S.n))
                 ELSE IF lhs.c[1].t = "Super" THEN Out(S, [k |-> "super"]) ELSE Eval(lhs.c[1], S)
            ky == EKey(lhs.c[2], o.S)
        IN IF op = "=" THEN
                LET r == Eval(rhs, ky.S) IN
                Out(Emit(r.S, Event("set", ky.k, o.v, NoV, <<ky.kv, r.v>>, <<>>, <<>>)), r.v)
-          ELSE LET Scur == IF static THEN ky.S ELSE Emit(ky.S, Event("get", ky.k, o.v, NoV, <<ky.kv>>, <<>>, <<>>))
+          ELSE LET Scur == IF static THEN ReadPath(ky.S, PathStr(lhs)) ELSE Emit(ky.S, Event("get", ky.k, o.v, NoV, <<ky.kv>>, <<>>, <<>>))
                    cur == IF static THEN PathV(PathStr(lhs), ky.S.n) ELSE ResV(ky.S.n)
                IN IF op \in {"&&=", "||=", "??="} THEN
                        LET r == Eval(rhs, Sub(Scur))
@@ -322,7 +330,7 @@ Eval(n, S) ==
          IF IsPure(r.v) THEN Out(r.S, [k |-> "litop", v |-> n.v, a |-> <<r.v>>])
          ELSE Out(Emit(r.S, Event("unary", n.v, r.v, NoV, <<>>, <<>>, <<>>)), ResV(r.S.n))
     [] n.t = "MemberExpression" ->
-         IF IsStaticMember(n, S) THEN Out(S, PathV(PathStr(n), S.n))
+         IF IsStaticMember(n, S) THEN Out(ReadPathAll(S, n), PathV(PathStr(n), S.n))
          ELSE LET r == ERef(n, S) IN Out(r.S, r.v)
     [] n.t = "SuperPropExpression" -> LET r == ERef(n, S) IN Out(r.S, r.v)
     [] n.t = "CallExpression" -> ECall(n, S)
@@ -354,7 +362,10 @@ Eval(n, S) ==
          IN Out(Emit(S1, Event("node", n.t \o "/" \o n.v \o "/" \o n.a, NoV, NoV, r.vs, r.S.ev, <<>>)), ResV(S1.n))
 
 (* the events of a whole program *)
-EffectsOf(tree, inj, hooks, late) == Eval(tree, InitState(inj, hooks, late)).S.ev
+EffectsOf(tree, inj, hooks, late) ==
+  LET S == Eval(tree, InitState(inj, hooks, late)).S IN
+  \* the bag of static-path reads outside any function rides along as a last pseudo-event
+  Append(S.ev, Event("paths", "", [k |-> "bag", v |-> S.pr], NoV, <<>>, <<>>, <<>>))
 
 (* first difference of two event sequences / two values, as a short text ("" = equal) *)
 RECURSIVE FirstEffectDiff(_, _, _), ValDiff(_, _), ValsDiff(_, _, _)
@@ -363,6 +374,7 @@ ValDiff(x, y) ==
   ELSE IF x.k = "fn" /\ y.k = "fn" THEN
        IF x.ev # y.ev THEN "in a function: " \o FirstEffectDiff(x.ev, y.ev, 1)
        ELSE IF x.vs # y.vs THEN "in a function: " \o ValsDiff(x.vs, y.vs, 1)
+       ELSE IF x.pr # y.pr THEN "in a function: static paths are read a different number of times: input " \o ToString(x.pr) \o " output " \o ToString(y.pr)
        ELSE "function kinds differ"
   ELSE IF x.k = "optval" /\ y.k = "optval" THEN ValDiff(x.v, y.v)
   ELSE IF x.k = "list" /\ y.k = "list" THEN ValsDiff(x.a, y.a, 1)
